@@ -76,6 +76,8 @@ func (p Parser) Parse(src io.Reader) (f File) {
 		}
 		index++
 
+		clampLines(&doc, cr, map[*yaml.Node]bool{})
+
 		if n := aliasCycle(&doc, map[*yaml.Node]bool{}); n != nil {
 			f.Error = ParseError{
 				Err:  fmt.Errorf("anchor '%s' value contains itself", n.Value),
@@ -118,6 +120,23 @@ To allow for multi-document YAML files set parser->relaxed option in pint config
 		}
 	}
 	return f
+}
+
+// clampLines moves nodes that yaml places after the end of the input (the implicit null value of a
+// `? key` without a value at the very end of the file) back onto the last line that was read.
+func clampLines(n *yaml.Node, cr *ContentReader, seen map[*yaml.Node]bool) {
+	if n == nil || seen[n] {
+		return
+	}
+	seen[n] = true
+	if cr.lineno > 0 && n.Line > cr.lineno {
+		n.Line = cr.lineno
+		n.Column = 1
+	}
+	for _, c := range n.Content {
+		clampLines(c, cr, seen)
+	}
+	clampLines(n.Alias, cr, seen)
 }
 
 func (p *Parser) parseNode(node, parent *yaml.Node, group *Group, offsetLine, offsetColumn int, contentLines []string) (groups []Group) {
